@@ -30,7 +30,7 @@ def run_versions(module, func, versions, args, timeout=3000, workers=None):
         env = {**os.environ, "PYTHONPATH": common.REPO + os.pathsep + common.ROOT, "PYTHONDONTWRITEBYTECODE": "1", "PYTHONHASHSEED": "0"}
         try:
             p = subprocess.run([sys.executable, "-m", "harness.vworker", module, func, v, argfile, out],
-                               capture_output=True, text=True, timeout=timeout, env=env, cwd=common.ROOT)
+                               capture_output=True, text=True, timeout=timeout, env=env, cwd=os.getcwd())
         except subprocess.TimeoutExpired:
             return v, {"worker_error": "timeout"}
         if p.returncode != 0 or not os.path.exists(out):
